@@ -68,13 +68,6 @@ package directive
 //@   property C01,C10
 //@   modifies[C01,C10,@parameters-untouched] nothing
 
-// Two directives are the same occurrence iff they were scanned from the same file OBJECT at the same offset: every INCLUDE
-// reads its file anew, so the same piece included twice yields different occurrences (C09: a piece may be included in
-// several places; collectPathVariables uses Equal to reject a second Path under the same parent occurrence).
-//@ func (Directive).Equal(d, d2)
-//@   property C09
-//@   modifies nothing
-//@   ensures[C09,@same-occurrence] result == (d.keywordCoords.file == d2.keywordCoords.file && d.keywordCoords.begin == d2.keywordCoords.begin)
 
 // Does a line of a Description text start a directive? (C01: no slice of the line exceeds what the line holds; the meaning
 // is checked by the bounded line-start check under C13/C08/C09/C12.) The directive table has 31 entries, set once at package load.
